@@ -1,6 +1,6 @@
 #!/bin/bash
 # usage: confirm_seed2.sh <NN> <k>   (k = "", 2 or 3) -- independent confirmation of a wave-2 seeded change (written against HEAD)
-NN=$1; K=$2; R=/tmp/seed2
+NN=$1; K=$2; R=${SEEDROOT:-/tmp/seed2}
 out=$R/out/$NN; wt=$R/c${NN}_${K:-1}; log=$R/confirm/${NN}_${K:-1}.log
 mkdir -p $R/confirm; exec > $log 2>&1
 git -C /repo worktree add -q --detach $wt HEAD || exit 9
